@@ -23,4 +23,6 @@ if [ ! -x build/driver ] || [ -n "$(find coq -name '*.vo' -newer build/driver)" 
 fi
 # 4. harness against the working tree
 (cd harness && cp /repo/go.sum . && go build -o "$V/build/harness" .)
+# 5. the command-line tool itself
+(cd /repo && go build -o "$V/build/pql-bin" ./cmd/pql)
 echo BUILD-OK
